@@ -10,8 +10,10 @@ every returned feasible flux); that the iterative solvers reach the minimum is N
 import DarsiaModel.Transport
 import DarsiaGen.TransportDispatch
 import DarsiaProofs.Transport
+import DarsiaProofs.TransportQuad
+import DarsiaProps.C15
 namespace Darsia.C05
-open Darsia
+open Darsia Darsia.Quad
 
 variable {N : (Nat → Rat) → Rat}
 
@@ -179,6 +181,69 @@ theorem emd_single_move (value dy dx : Rat) (drow dcol : Int) (s : Rat) :
     emdSingleSq (s * value) dy dx drow dcol = s ^ 2 * emdSingleSq value dy dx drow dcol := by
   refine ⟨?_, ?_, ?_⟩ <;> simp only [emdSingleSq] <;> push_cast <;> ring
 
+/-! ### first-moment bound (real quadrature nodes, Euclidean norm) -/
+
+/-- **First-moment bound**, abstract form: for every seminorm, every rule with non-negative weights of total 1 whose
+first moments are ½ (integrates linears exactly on the unit cell), every mass-conserving flux `U` (`div U = vol·f`) and
+constant cell weight `k`: `|k| · N(Σ_c x_c · vol · f_c) ≤ cost(U)`, `x_c` = physical cell centres (`xcoord`). -/
+theorem first_moment_bound {N : (ℕ → ℝ) → ℝ} (hN : IsSeminormR N) (shape : List Nat) (h : List Rat)
+    (hl : h.length = shape.length) (hv : 0 ≤ vol h) (t : List (List ℝ × ℝ)) (ht : UnitRuleFacts t shape.length)
+    (k : ℝ) (f U : Nat → Rat) (hF : Feasible shape h f U) :
+    |k| * N (fun a => ((sumTo (numCells shape) (fun c => xcoord h a (decF shape c) * (vol h * f c)) : Rat) : ℝ)) ≤
+      costR N shape h t k U := by
+  rw [costR_weight hN]
+  exact mul_le_mul_of_nonneg_left
+    (first_moment_bound_aux hN shape h hl hv t ht.nonneg ht.total ht.first f U hF) (abs_nonneg k)
+
+/-- table obligation (re-evaluated on the tables extracted from the current source): every point of every accepted
+Gauss table and of the corner tables has `dim` coordinates -/
+theorem rule_point_lengths :
+    (∀ p ∈ Gen.accepted, ptsLengthOk (Gen.rule p.1 p.2) p.1 = true) ∧
+    (∀ dim ∈ Gen.cornerDims, ptsLengthOk (Gen.corners dim) dim = true) := by decide
+
+/-- the rules `transport_density` selects are among the proved ones: order 0 (CONSTANT_CELL_PROJECTION) and the
+`"max"` alias (RAVIART_THOMAS) in every dimension 1–3; corners (CONSTANT_SUBCELL_PROJECTION) in 1–3 -/
+theorem selected_rules_accepted :
+    ∀ dim ∈ [1, 2, 3], (dim, 0) ∈ Gen.accepted ∧ dim ∈ Gen.cornerDims ∧
+      ∃ o, Gen.maxOrder dim = some o ∧ (dim, o) ∈ Gen.accepted := by decide
+
+/-- the hypothesis on the quadrature rule holds for `gauss_reference_cell(dim, order)` of every accepted table (C15) … -/
+theorem gauss_cell_rule_facts : ∀ p ∈ Gen.accepted, ∃ r, Gen.rule p.1 p.2 = .ok r ∧
+    UnitRuleFacts r.toUnitCell.real p.1 := by
+  intro p hp
+  obtain ⟨r, hr, hs⟩ := C15.gauss_reference_cell_exact p hp
+  exact ⟨r, hr, unitRuleFacts_of_unitSpec hs (by omega) (ptsLengthOk_sound (rule_point_lengths.1 p hp) hr)⟩
+
+/-- … and for `reference_cell_corners(dim)`. -/
+theorem corner_rule_facts : ∀ dim ∈ Gen.cornerDims, ∃ r, Gen.corners dim = .ok r ∧ UnitRuleFacts r.real dim := by
+  intro dim hd
+  obtain ⟨r, hr, hs⟩ := C15.corner_rule_multilinear dim hd
+  exact ⟨r, hr, unitRuleFacts_of_cornerSpec hs (ptsLengthOk_sound (rule_point_lengths.2 dim hd) hr)⟩
+
+/-- **First-moment bound in the norm the code uses**: Euclidean norm per quadrature point, Gauss rule of any accepted
+order on the unit cell (in particular order 0 and `"max"`): the Euclidean length of the displacement of the first moment,
+times the constant cell weight, is at most the cost of any mass-conserving flux. -/
+theorem first_moment_bound_gauss : ∀ p ∈ Gen.accepted, ∃ r, Gen.rule p.1 p.2 = .ok r ∧
+    ∀ (shape : List Nat) (h : List Rat) (k : ℝ) (f U : Nat → Rat), shape.length = p.1 → h.length = p.1 →
+      0 ≤ vol h → Feasible shape h f U →
+      |k| * euclid p.1 (fun a => ((sumTo (numCells shape) (fun c => xcoord h a (decF shape c) * (vol h * f c)) : Rat) : ℝ)) ≤
+        costR (euclid p.1) shape h r.toUnitCell.real k U := by
+  intro p hp
+  obtain ⟨r, hr, hf⟩ := gauss_cell_rule_facts p hp
+  refine ⟨r, hr, fun shape h k f U hs hl hv hF => ?_⟩
+  exact first_moment_bound (euclid_isSeminormR p.1) shape h (by omega) hv _ (by rw [hs]; exact hf) k f U hF
+
+/-- … and for the corner rule (CONSTANT_SUBCELL_PROJECTION). -/
+theorem first_moment_bound_corners : ∀ dim ∈ Gen.cornerDims, ∃ r, Gen.corners dim = .ok r ∧
+    ∀ (shape : List Nat) (h : List Rat) (k : ℝ) (f U : Nat → Rat), shape.length = dim → h.length = dim →
+      0 ≤ vol h → Feasible shape h f U →
+      |k| * euclid dim (fun a => ((sumTo (numCells shape) (fun c => xcoord h a (decF shape c) * (vol h * f c)) : Rat) : ℝ)) ≤
+        costR (euclid dim) shape h r.real k U := by
+  intro dim hd
+  obtain ⟨r, hr, hf⟩ := corner_rule_facts dim hd
+  refine ⟨r, hr, fun shape h k f U hs hl hv hF => ?_⟩
+  exact first_moment_bound (euclid_isSeminormR dim) shape h (by omega) hv _ (by rw [hs]; exact hf) k f U hF
+
 /-! ### non-vacuity -/
 
 /-- the absolute value of one component is a seminorm (the Euclidean norm on single-component vectors) -/
@@ -187,5 +252,9 @@ example : IsSeminorm (fun v => |v 0|) := ⟨fun s v => abs_mul s (v 0), fun v w 
 example : (List.range 3).map (uniqueFlux1d (1/2) (fun c => [1, -3, 0, 2].getD c 0)) = [1/2, -1, -1] := by decide +kernel
 example : feasibleB [4] [1/2] (fun c => [1, -3, 0, 2].getD c 0) (fun g => [1/2, -1, -1].getD g 0) = true := by
   decide +kernel
+
+/-- the rule hypothesis of the first-moment bound is satisfiable by the code's own rules -/
+example : ∃ r, Gen.corners 2 = .ok r ∧ UnitRuleFacts r.real 2 := corner_rule_facts 2 (by decide)
+example : ∃ r, Gen.rule 3 2 = .ok r ∧ UnitRuleFacts r.toUnitCell.real 3 := gauss_cell_rule_facts (3, 2) (by decide)
 
 end Darsia.C05
